@@ -21,7 +21,7 @@ fn main() {
     if args[2] == "--replay" {
         let v: serde_json::Value = serde_json::from_str(&std::fs::read_to_string(&args[3]).expect("replay file")).expect("json");
         let code = match v["replay"]["engine"].as_str() {
-            Some("e1") | Some("e2") => e1::replay(&v),
+            Some("e1") | Some("e2") | Some("c04real") => e1::replay(&v),
             Some("c02") => lanes::c02::replay(&v),
             Some("c03") => lanes::c03::replay(&v),
             Some("c06") => lanes::c06::replay(&v),
